@@ -37,3 +37,30 @@ PROPS = {
         "assumptions": ["label sides (start / at_end) are imported from the implementation at the start of each session; positions are not"],
     },
 }
+
+# (moved below)
+# engines built separately contribute their own entries
+import importlib as _il
+
+for _m in ("props_ctsim", "props_cfisim", "props_machsim", "props_asmsim"):
+    try:
+        PROPS.update(_il.import_module("sim." + _m).PROPS)
+    except ModuleNotFoundError:
+        pass
+
+PROPS["C03"] = {
+    "engine": "rwsim",
+    "level": "exploration",
+    "quick_runs": 3000,
+    "thorough_runs": 60000,
+    "quick_wall": 240,
+    "thorough_wall": 2400,
+    "rule": "seeded scenarios (random module with per-instruction-consistent CFG + 1-3 sessions of edits with patches made of "
+    "plain/jmp/jcc/call/ret/indirect instructions and labels); distinct = distinct (module, sessions) digest; "
+    "non-trivial = at least one modification was registered",
+    "real_vs_stub": RW_REAL,
+    "assumptions": [
+        "instruction kinds of patch code are read with capstone from the assembled bytes, branch targets from the patch's symbolic expressions",
+        "code never runs off the end of code into data or the end of a section (generator precondition)",
+    ],
+}
